@@ -39,8 +39,9 @@ impl HasVar for VOp {
     }
 }
 
+/// deliberately not symmetric in its arguments: swapping the operand types changes the result type
 fn res_label(l: u32, r: u32) -> u32 {
-    (l + r + 1) % 3
+    (2 * l + r + 1) % 3
 }
 
 macro_rules! has_bin {
@@ -162,15 +163,23 @@ fn gen_prog(r: &mut Rng, max_stmts: usize) -> Prog {
 
 /// direct evaluation of the expression DAG; returns (outputs, per applied operator (label, inputs), var labels)
 fn direct(p: &Prog, inputs: &[u64]) -> (Vec<u64>, Vec<(VOp, Vec<u64>)>, Vec<u32>) {
+    let (a, b, c, _) = direct_typed(p, inputs);
+    (a, b, c)
+}
+
+/// as `direct`, plus for every applied operator its (label, operand types, result types)
+fn direct_typed(p: &Prog, inputs: &[u64]) -> (Vec<u64>, Vec<(VOp, Vec<u64>)>, Vec<u32>, Vec<(VOp, Vec<u32>, Vec<u32>)>) {
     let mut vals: Vec<u64> = inputs.to_vec();
     let mut labels: Vec<u32> = p.input_labels.clone();
     let mut applied = vec![];
+    let mut typed = vec![];
     for s in &p.stmts {
         match s {
             Stmt::Bin(k, a, b) => {
                 let op = BIN[*k as usize].clone();
                 let x = vec![vals[*a], vals[*b]];
                 let y = vop_apply(&op, &x, 1);
+                typed.push((op.clone(), vec![labels[*a], labels[*b]], vec![res_label(labels[*a], labels[*b])]));
                 applied.push((op, x));
                 vals.push(y[0]);
                 labels.push(res_label(labels[*a], labels[*b]));
@@ -179,7 +188,9 @@ fn direct(p: &Prog, inputs: &[u64]) -> (Vec<u64>, Vec<(VOp, Vec<u64>)>, Vec<u32>
                 let op = if *k == 0 { VOp::Neg } else { VOp::Not };
                 let x = vec![vals[*a]];
                 let y = vop_apply(&op, &x, 1);
-                labels.push(if *k == 0 { (labels[*a] + 2) % 3 } else { labels[*a] });
+                let rl = if *k == 0 { (labels[*a] + 2) % 3 } else { labels[*a] };
+                typed.push((op.clone(), vec![labels[*a]], vec![rl]));
+                labels.push(rl);
                 applied.push((op, x));
                 vals.push(y[0]);
             }
@@ -187,6 +198,7 @@ fn direct(p: &Prog, inputs: &[u64]) -> (Vec<u64>, Vec<(VOp, Vec<u64>)>, Vec<u32>
                 let op = VOp::Named(*id, out_labels.len() as u8);
                 let x: Vec<u64> = args.iter().map(|&a| vals[a]).collect();
                 let y = vop_apply(&op, &x, out_labels.len());
+                typed.push((op.clone(), args.iter().map(|&a| labels[a]).collect(), out_labels.clone()));
                 applied.push((op, x));
                 vals.extend(y);
                 labels.extend(out_labels.iter().cloned());
@@ -195,13 +207,14 @@ fn direct(p: &Prog, inputs: &[u64]) -> (Vec<u64>, Vec<(VOp, Vec<u64>)>, Vec<u32>
                 let op = VOp::Named(*id, 1);
                 let x: Vec<u64> = args.iter().map(|&a| vals[a]).collect();
                 let y = vop_apply(&op, &x, 1);
+                typed.push((op.clone(), args.iter().map(|&a| labels[a]).collect(), vec![*out_label]));
                 applied.push((op, x));
                 vals.push(y[0]);
                 labels.push(*out_label);
             }
         }
     }
-    (p.outputs.iter().map(|&o| vals[o]).collect(), applied, labels)
+    (p.outputs.iter().map(|&o| vals[o]).collect(), applied, labels, typed)
 }
 
 type Term = LOh<u32, VOp>;
@@ -330,6 +343,28 @@ impl C19 {
                 }
             }
         }
+        // the functor value itself through the native lax path (defined for quotient-free terms only)
+        if plain.q.is_empty() {
+            use open_hypergraphs::lax::functor::try_define_map_arrow;
+            use open_hypergraphs::lax::var::forget::Forget;
+            if let Some(o) = must_return(ctx, "try_define_map_arrow(Forget)", class, guard(|| try_define_map_arrow(&Forget, term)), input) {
+                ctx.check(o.is_some(), &format!("try_define_map_arrow(Forget)/accepts-quotient-free/value/{}", class), || json!({"input": input()}));
+                if let (Some(img), Ok(want)) = (o, model_forget(&strict_in, false)) {
+                    if let Some(pl) = walk_lax(ctx, "try_define_map_arrow(Forget)", class, &img, &input) {
+                        match pl.strict() {
+                            Ok((got, _)) => {
+                                if ctx.check(got.src_type() == strict_in.src_type() && got.tgt_type() == strict_in.tgt_type(), &format!("try_define_map_arrow(Forget)/preserves-type/value/{}", class), || json!({"input": input(), "observed": show(&got)})) {
+                                    expect_iso(ctx, "try_define_map_arrow(Forget)", "replaces-exactly-uniform-var-edges", class, &got, &want, &input);
+                                }
+                            }
+                            Err(_) => {
+                                ctx.check(false, &format!("try_define_map_arrow(Forget)/result-quotientable/value/{}", class), || json!({"input": input()}));
+                            }
+                        }
+                    }
+                }
+            }
+        }
         for (api, mono) in [("forget", false), ("forget_monogamous", true)] {
             let res = if mono { guard(|| forget_monogamous(term)) } else { guard(|| forget(term)) };
             let out = match must_return(ctx, api, class, res, input) {
@@ -452,8 +487,26 @@ impl C19 {
         ctx.check(src_ty == p.input_labels && tgt_ty == want_tgt, "build/interfaces-in-order/value/any", || {
             json!({"input": input(), "observed": format!("{:?} -> {:?}", src_ty, tgt_ty), "expected": format!("{:?} -> {:?}", p.input_labels, want_tgt)})
         });
+        // the term as a diagram: pending unifications (if the builder leaves any) applied
+        let strict_term = match plain.strict() {
+            Ok((s, _)) => s,
+            Err(_) => {
+                ctx.check(false, "build/term-can-be-quotiented/value/any", || json!({"input": input(), "term": show_lax(&plain)}));
+                return;
+            }
+        };
+        // every operator's hyperedge sits on nodes of its operand types and of its result types, in order
+        {
+            let (_, _, _, typed) = direct_typed(p, &inputs);
+            let mut got: Vec<(VOp, Vec<u32>, Vec<u32>)> = strict_term.e.iter().filter(|e| e.l != VOp::Var)
+                .map(|e| (e.l.clone(), e.s.iter().map(|&v| strict_term.w[v]).collect(), e.t.iter().map(|&v| strict_term.w[v]).collect())).collect();
+            let mut want_typed = typed;
+            got.sort();
+            want_typed.sort();
+            ctx.check(got == want_typed, "build/operators-typed-by-their-operands/value/any", || json!({"input": input(), "observed": format!("{:?}", got), "expected": format!("{:?}", want_typed)}));
+        }
         // meaning: evaluate with var hyperedges read as copies
-        let ef = eval_form(&plain.forget_q());
+        let ef = eval_form(&strict_term);
         let run = run_eval(&to_strict(&ef), inputs.clone(), &|l, x| eapply(l, x));
         ctx.api("eval(built)");
         let ok = matches!(&run.result, Ok(Some(v)) if *v == want_out);
@@ -558,6 +611,7 @@ impl Monitor for C19 {
             ("outcome:forget_returned", 400),
             ("api:eval(built)", 200),
             ("api:eval(forgotten)", 200),
+            ("api:try_define_map_arrow(Forget)", 200),
             ("events:callback_operations_checked", 500),
         ]
     }
